@@ -26,6 +26,7 @@ from typing import Any, Dict, List, Optional, Tuple
 from .. import core, defx
 
 TYPES = ["int32", "double", "char[4]", "HS", "float[NCH]"]
+SPELLINGS = ["int", "signed int", "long", "signed long", "unsigned", "unsigned int", "long long", "signed long long", "short", "signed short"]
 CONSTS = {"NCH": 4, "NB": 3}
 STRUCTS = {"HS": {"fields": {"u": "int16", "v": "int16"}}}
 Fields = Tuple[Tuple[str, str], ...]
@@ -49,7 +50,8 @@ def edits(name: str, mid: int, fields: Fields) -> List[Tuple[str, str, int, Fiel
     for i in range(n):
         fn, ft = fields[i]
         out.append((f"field-rename@{i}", name, mid, fields[:i] + ((fn + "x", ft),) + fields[i + 1:]))
-        for t in TYPES + ["int32[2]", "uint32"]:
+        # ... including the other spellings of one machine type (each spelling is a type text of its own)
+        for t in TYPES + ["int32[2]", "uint32"] + SPELLINGS:
             if t != ft:
                 out.append((f"retype@{i}:{t}", name, mid, fields[:i] + ((fn, t),) + fields[i + 1:]))
         out.append((f"delete@{i}", name, mid, fields[:i] + fields[i + 1:]))
@@ -300,6 +302,18 @@ def cross_language(bs: List[Fields], d: str) -> Tuple[List[Dict[str, Any]], Dict
     p = defx.parse_model(paths["root"])
     want = {n: int(m.hash[:8], 16) for n, m in p.message_defs.items()}
     got = {}
+    # the Python output of the core definitions that ships inside the package (Client, manager and web manager build their own
+    # messages from it) carries the hashes of the core definition file as it is now
+    import pyrtma.core_defs as shipped
+
+    nshipped = 0
+    for name, m in p.message_defs.items():
+        if "core_defs" in str(m.src):
+            cls = getattr(shipped, "MDF_" + name, None)
+            nshipped += 1
+            if cls is None or cls.type_hash != want[name]:
+                problems.append({"kind": "shipped-core-output-differs", "message": name, "parser": hex(want[name]),
+                                 "shipped": hex(cls.type_hash) if cls is not None else None})
     loaders = {
         "python": lambda: {n: dd["hash"] for n, dd in defx.sig_python(paths["python"])["defs"].items() if dd["msg"]},
         "c": lambda: {k[5:]: _hex(v) for k, v in defx.sig_c(paths["c_lang"], d, defx.core_header(d))["defines"].items() if k.startswith("HASH_")},
